@@ -27,6 +27,7 @@ MANIFEST = {
             "and 3.1 are not generated: ill-typed filter operands, indent/truncate/urlize, {%+ without lstrip_blocks, async, i18n). "
             "Exception types/messages are not compared, only success vs failure.",
 }
+MANIFEST["text"] += ' Template sources are also fed with CR-only and CRLF line endings; operands include attribute chains with several integer subscripts; use-query tags are rendered again with other answers and placed where control never reaches them.'
 
 
 # ------------------------------------------------------------------------------------------------ typed grammar
